@@ -6,6 +6,7 @@ import (
 	"encoding/json"
 	"errors"
 	"fmt"
+	"io"
 	"net/http"
 	"sort"
 	"strings"
@@ -100,10 +101,13 @@ type RPCCase struct {
 	// above it are refused by the mux.
 	MaxSend     int    `json:"max_send,omitempty"`
 	ContentType string `json:"content_type,omitempty"`
-	Accept      string `json:"accept,omitempty"`
-	LockStep    bool   `json:"lock_step,omitempty"`
-	Client      string `json:"client,omitempty"` // lock-step lane: h1-http | h2c-http | grpc | h1-web
-	Opts        Opts   `json:"opts"`
+	// ContentEncoding of the request, verbatim (the body is really gzipped
+	// for "gzip"; every other value goes with the plain body)
+	ContentEncoding string `json:"content_encoding,omitempty"`
+	Accept          string `json:"accept,omitempty"`
+	LockStep        bool   `json:"lock_step,omitempty"`
+	Client          string `json:"client,omitempty"` // lock-step lane: h1-http | h2c-http | grpc | h1-web
+	Opts            Opts   `json:"opts"`
 }
 
 func (c *RPCCase) unary() bool   { return c.Method == "Echo" }
@@ -397,7 +401,7 @@ func replacement() proto.Message {
 // noteMD logs the request metadata the handler (or back-end) can see.
 func (s *rpcSvc) noteMD(sc *rscn, ctx context.Context) {
 	md, _ := metadata.FromIncomingContext(ctx)
-	sc.add("h", "md", fmt.Sprintf("authorization=%q x-meta=%q x-added-by-stats-handler=%q", md.Get("authorization"), md.Get("x-meta"), md.Get("x-added-by-stats-handler")), nil, 0, nil)
+	sc.add("h", "md", fmt.Sprintf("authorization=%q x-meta=%q x-added-by-stats-handler=%q x-icpt-added=%q", md.Get("authorization"), md.Get("x-meta"), md.Get("x-added-by-stats-handler"), md.Get("x-icpt-added")), nil, 0, nil)
 }
 
 func (s *rpcSvc) noteCtx(sc *rscn, ctx context.Context) {
@@ -547,6 +551,10 @@ func (s *rpcSvc) unaryIcpt(mode string) grpc.UnaryServerInterceptor {
 		}
 		sc.add("ui", "call", info.FullMethod, nil, 0, nil)
 		switch mode {
+		case "md":
+			resp, err := handler(rewriteMD(ctx), req)
+			sc.add("ui", "return", "", err, 0, nil)
+			return resp, err
 		case "replace":
 			handler(ctx, req) //nolint:errcheck
 			sc.add("ui", "return", "", nil, 0, nil)
@@ -562,6 +570,27 @@ func (s *rpcSvc) unaryIcpt(mode string) grpc.UnaryServerInterceptor {
 	}
 }
 
+// rewriteMD is what an authenticating / normalising interceptor does to the
+// incoming metadata before it passes the call on: it adds a key, replaces a
+// client-sent key and removes one.
+func rewriteMD(ctx context.Context) context.Context {
+	in, _ := metadata.FromIncomingContext(ctx)
+	md := in.Copy()
+	md.Set("x-icpt-added", "1")
+	md.Set("x-meta", "rewritten-by-interceptor")
+	delete(md, "authorization")
+	return metadata.NewIncomingContext(ctx, md)
+}
+
+const rewrittenMD = `authorization=[] x-meta=["rewritten-by-interceptor"] x-added-by-stats-handler=[] x-icpt-added=["1"]`
+
+type mdStream struct {
+	grpc.ServerStream
+	ctx context.Context
+}
+
+func (m mdStream) Context() context.Context { return m.ctx }
+
 func flagsInfo(full string, cs, ss bool) string {
 	return fmt.Sprintf("%s cs=%v ss=%v", full, cs, ss)
 }
@@ -574,6 +603,10 @@ func (s *rpcSvc) streamIcpt(mode string) grpc.StreamServerInterceptor {
 		}
 		sc.add("si", "call", flagsInfo(info.FullMethod, info.IsClientStream, info.IsServerStream), nil, 0, nil)
 		switch mode {
+		case "md":
+			err := handler(srv, mdStream{ss, rewriteMD(ss.Context())})
+			sc.add("si", "return", "", err, 0, nil)
+			return err
 		case "override":
 			handler(srv, ss) //nolint:errcheck
 			err := sc.spec.errOverride()
@@ -751,9 +784,14 @@ func (s *rpcSvc) request(c *RPCCase, id string) (*http.Request, bool) {
 	if c.Method == "OtherSvc" {
 		full = "/vf.c18x.Other/Get" // a service nobody registered
 	}
-	if c.ContentType != "" || c.Accept != "" {
+	if c.ContentType != "" || c.Accept != "" || c.ContentEncoding != "" {
 		req, bodyless := s.request(&RPCCase{Proto: c.Proto, Method: c.Method, In: c.In, Timeout: c.Timeout}, id)
-		for k, v := range map[string]string{"Content-Type": c.ContentType, "Accept": c.Accept} {
+		if c.ContentEncoding == "gzip" && !bodyless {
+			b, _ := io.ReadAll(req.Body)
+			gz := wire.Gzip(b)
+			req.Body, req.ContentLength = io.NopCloser(bytes.NewReader(gz)), int64(len(gz))
+		}
+		for k, v := range map[string]string{"Content-Type": c.ContentType, "Accept": c.Accept, "Content-Encoding": c.ContentEncoding} {
 			switch v {
 			case "":
 			case "-":
@@ -962,7 +1000,7 @@ func (s *rpcSvc) check(c *RPCCase, o *outcome) (vs []viol, obs map[string]int) {
 	// A unary call that is already over when it is dispatched fails in the
 	// request decode step, in front of the interceptor (as in grpc-go).
 	decodeFailed := c.unary() && c.expired() && nUI == 0 && (pc == "grpc" || pc == "web")
-	if c.unary() && nUI == 0 && (c.ContentType != "" || c.Accept != "") && (count(ev, "h", "recv-err") > 0 || c.proxied()) {
+	if c.unary() && nUI == 0 && (c.ContentType != "" || c.Accept != "" || c.ContentEncoding != "") && (count(ev, "h", "recv-err") > 0 || c.proxied()) {
 		// the request could not be decoded (no codec for the media type):
 		// generated code fails in front of the interceptor; for a proxied
 		// method that step is inside larking's forwarder
@@ -1064,7 +1102,7 @@ func (s *rpcSvc) check(c *RPCCase, o *outcome) (vs []viol, obs map[string]int) {
 		// the back-end's sends succeed, the forwarder's are refused
 		finalKnown = false
 	}
-	oddHeaders := c.ContentType != "" || c.Accept != ""
+	oddHeaders := c.ContentType != "" || c.Accept != "" || c.ContentEncoding != ""
 	if oddHeaders && c.proxied() && !((c.unary() && uiOn) || (!c.unary() && siOn)) {
 		// the forwarder's own sends to the client may fail (no codec): the
 		// back-end's view is not larking's handler's
@@ -1471,7 +1509,17 @@ func (g *c18run) group(base RPCCase, optsList []Opts) {
 		plain := c
 		plain.Opts = Opts{}
 		deciding := ref.baseKey() != plain.baseKey()
-		if !deciding && !racy && !(c.proxied() && c.ended()) && out.HandlerMD != wantMD {
+		mdMode := (c.unary() && o.Unary == "md") || (!c.unary() && o.Stream == "md")
+		if mdMode && count(out.Events, "h", "enter") > 0 && out.HandlerMD != rewrittenMD {
+			// what the handler / back-end sees is what the interceptor passed on
+			shape := map[string]string{"Echo": "unary", "CS": "cs", "SS": "ss", "Bidi": "bidi"}[c.Method]
+			g.r.Violate(fmt.Sprintf("%s/%s:interceptor-metadata-not-seen-by-handler:%s", c.Target, c.protoClass(), shape),
+				fmt.Sprintf("%s %s %s: the interceptor passed on the metadata {%s} but the handler / back-end saw {%s}", c.Target, c.Proto, c.Method, rewrittenMD, out.HandlerMD),
+				map[string]any{"part": "rpc", "case": &c, "events": out.Events, "transcript": out.Transcript})
+		} else if mdMode {
+			g.r.Count("interceptor_metadata_seen_by_handler", 1)
+		}
+		if !mdMode && !deciding && !racy && !(c.proxied() && c.ended()) && out.HandlerMD != wantMD {
 			// same script, same request: the handler must see the same metadata
 			out.Transcript += " | handler saw " + out.HandlerMD
 			want += " | handler saw " + wantMD
@@ -1719,6 +1767,48 @@ func RunC18(r *mon.Run) {
 						c.In = nil
 					}
 					jobs = append(jobs, job{c, downOpts})
+				}
+			}
+		}
+	}
+	// request Content-Encoding values, next to Content-Type / Accept
+	encOpts := []Opts{{}, {Stats: true}, {Unary: "rec", Stream: "rec"}, {Unary: "rec", Stream: "rec", Stats: true}}
+	for _, target := range []string{"local", "proxy"} {
+		for _, method := range methods {
+			for _, p := range []string{"http-json", "http-proto", "http-implicit", "http-get", "http-nobody"} {
+				if (p == "http-get" || p == "http-nobody") && method != "Echo" && method != "SS" {
+					continue
+				}
+				in, out := shapeIO(method, 5, 2, 2)
+				if p == "http-get" || p == "http-nobody" {
+					in = nil
+				}
+				for _, ce := range []string{"identity", "gzip", "deflate", "br", "zstd", "x-unknown", "gzip, br", "GZIP", "compress", ","} {
+					if in == nil && (ce == "gzip") {
+						// On the pinned tree a body-less request that names gzip
+						// fails in Decompress (EOF) between the stats Begin and
+						// the only End: reported to the lead, not run here.
+						continue
+					}
+					jobs = append(jobs, job{RPCCase{Part: "rpc", Target: target, Proto: p, Method: method, In: in, Out: out, ContentEncoding: ce}, encOpts})
+				}
+			}
+		}
+	}
+	// interceptors that rewrite the incoming metadata: the handler (local) and
+	// the back-end (proxied) see what the interceptor passed on, unary and
+	// streaming alike
+	mdOpts := []Opts{{}, {Unary: "md", Stream: "md"}, {Unary: "md", Stream: "md", Stats: true}, {Unary: "md", Stream: "md", Stats: true, Mutate: true}}
+	for _, target := range []string{"local", "proxy"} {
+		for _, method := range methods {
+			for _, p := range protosFor(method) {
+				for _, fail := range []bool{false, true} {
+					in, out := shapeIO(method, 5, 2, 2)
+					c := RPCCase{Part: "rpc", Target: target, Proto: p, Method: method, In: in, Out: out, Fail: fail, Code: 5, Msg: "nope"}
+					if p == "http-get" || p == "http-nobody" {
+						c.In = nil
+					}
+					jobs = append(jobs, job{c, mdOpts})
 				}
 			}
 		}
